@@ -56,6 +56,9 @@ func TestC07(t *testing.T) {
 			if rapid.IntRange(0, 3).Draw(rt, "recursive-late") == 0 {
 				b.RecursiveLate("R0")
 			}
+			if wrap == "errors" && rapid.IntRange(0, 2).Draw(rt, "shared-helper-override") == 0 {
+				b.SharedHelperOverride("wrap-off")
+			}
 			b.Conv.Settings.EnumOff = true
 			b.Finish()
 			c := runCase{Conv: b.Conv, Mode: "fault", Values: values, Seed: rapid.Uint64().Draw(rt, "drvseed"), Funcs: b.Funcs, Distinct: true, Wrap: wrap}
